@@ -29,15 +29,17 @@ Step(t, e) ==
   LET t0 == [t EXCEPT !.events = @ + 1] IN
   CASE e.ev = "reset" -> [t0 EXCEPT !.run = e.run, !.runs = @ + 1, !.subnets = e.subnets, !.lat = e.lat, !.lossfree = (e.loss = 0 /\ e.only_kth = 0),
                                    !.claims = {}, !.wires = {}, !.open = {}, !.done = {}]
-    [] e.ev = "claim" -> [t0 EXCEPT !.claims = @ \cup {[ip |-> T(e.ip), m |-> e.m, mac |-> e.mac]}]
+    [] e.ev = "claim" -> [t0 EXCEPT !.claims = @ \cup {[ip |-> T(e.ip), m |-> e.m, mac |-> e.mac, t |-> e.t]}]
     [] e.ev = "arpwire" -> [t0 EXCEPT !.wires = @ \cup {[oper |-> e.oper, smac |-> e.smac, sip |-> T(e.sip), tip |-> T(e.tip),
                                                          dst |-> e.dst, ok |-> e.delivered, t |-> e.t, i |-> e.i]}]
     [] e.ev = "rstart" ->
          \* resolving also claims the local address (Arp::resolve calls listen)
          [t0 EXCEPT !.open = @ \cup {[rid |-> e.rid, m |-> e.m, mac |-> e.mac, local |-> T(e.local),
                                       target |-> Target(t, e.m, T(e.local), T(e.remote)), t0 |-> e.t,
-                                      owned0 |-> Owners(t, Target(t, e.m, T(e.local), T(e.remote))) # {}]},
-                    !.claims = @ \cup {[ip |-> T(e.local), m |-> e.m, mac |-> e.mac]}]
+                                      \* (the owner's claim -- and with it its announcement, an ARP packet of its own -- is more
+                                      \* than a round trip older than this resolution: a claim made at the same instant has not reached anybody yet)
+                                      owned0 |-> \E c \in Owners(t, Target(t, e.m, T(e.local), T(e.remote))) : c.t + 2 * t.lat + 1000 < e.t]},
+                    !.claims = @ \cup {[ip |-> T(e.local), m |-> e.m, mac |-> e.mac, t |-> e.t]}]
     [] e.ev = "rend" ->
          LET r == CHOOSE x \in t.open : x.rid = e.rid
              own == Owners(t, r.target)
